@@ -405,7 +405,7 @@ def matrix_definitions() -> list[dict]:
                 fs.append(_complete({"name": "NulArr" + t.capitalize(), "t": t, "tk": "parr", "nullable": [1, OPEN]}))
         kind = ["request", "response", "data", "header"][i % 4]
         name = f"Matrix{t.capitalize()}" + ("Request" if kind == "request" else "Response" if kind == "response" else "")
-        out.append({"id": f"mx{i}", "kind": kind, "name": name, "apiKey": 200 + i if kind in ("request", "response") else -1,
+        out.append({"id": f"mx{i}", "kind": kind, "name": name, "apiKey": [0, 1, 2, 4, 5, 6, 8, 9, 10, 11, 12, 13, 14][i] if kind in ("request", "response") else -1,
                     "valid": [0, 2], "flex": [1, OPEN], "fields": fs, "common": []})
     # special names in every role
     fs = [_complete({"name": "ThrottleTimeMs", "t": "int32", "tk": "prim"}),
